@@ -8,7 +8,8 @@ open Lean QG.Model QG.Model.Shots
 `plan`     {"cpu":c,"S":s} → {"n_processes","chunksize","chunks":[[i,…],…]}
 `seq`      {"repaired":bool,"S":s,"p0":p,"lens":[…]}
 `par`      {"repaired":bool,"start":"fork"|"spawn","cpu":c,"S":s,"p0":p,"lens":[…],"worker":[…],"order":[…]}
-           → {"valid":bool,"entries":[[shot,worker,stream,start,len],…] (completion order),"disjoint":bool}
+           → {"valid":bool,"entries":[[shot,worker,stream,start,len],…] (completion order),"disjoint":bool,
+              "parent_pos": position of the parent's generator afterwards}
              stream = ["parent"] | ["fresh",w] | ["child",e,i]
 `estimate` {"d":d,"S":s,"vectors":[[[num,den],…],…]} (accumulation order)
            → {"ok":[[num,den],…]} | {"err":"AssertionError"}
@@ -45,9 +46,10 @@ def handlePlan09 (j : Json) : Except String Json := do
 
 def handleSeq (j : Json) : Except String Json := do
   let cfg : Config := ⟨← getBool j "repaired", .fork, ← getNat j "p0", lenOf (← natList j "lens")⟩
-  let es := seqRun cfg (← getNat j "S")
+  let S ← getNat j "S"
+  let es := seqRun cfg S
   pure (Json.mkObj [("valid", Json.bool true), ("entries", entriesJson es),
-    ("disjoint", Json.bool (pairwiseDisjointB es))])
+    ("disjoint", Json.bool (pairwiseDisjointB es)), ("parent_pos", toJson (parentAfter cfg false S).pos)])
 
 def handlePar (j : Json) : Except String Json := do
   let start ← match ← getStr j "start" with
@@ -62,7 +64,7 @@ def handlePar (j : Json) : Except String Json := do
   let m := (Pool.chunks (Pool.chunksize S n) (List.range S)).length
   let es := parRun cfg cpu S s
   pure (Json.mkObj [("valid", Json.bool (s.validB m n)), ("entries", entriesJson es),
-    ("disjoint", Json.bool (pairwiseDisjointB es))])
+    ("disjoint", Json.bool (pairwiseDisjointB es)), ("parent_pos", toJson (parentAfter cfg true S).pos)])
 
 private def parseRat (j : Json) : Except String Rat := do
   match (← j.getArr?).toList with
